@@ -46,11 +46,15 @@ def gen_case(seed: int, prop: str, tier: str) -> dict:
         case["sub"] = sub
     elif kind == "vmtar":
         case["how"] = rng.choice(["name", "fileobj", "name_gz_flag"])
+        from hvsim.writers import vmtar as WT
+
+        case["arch"] = WT.gen_cfg(rng, tier) if rng.random() < 0.7 else None
     elif kind in ("envelope", "cli"):
         case["aad"] = rng.choice([True, True, False])
         case["output_exists"] = rng.random() < 0.3
         # how the CLI is invoked: the documented form, or with the output option left out / other spellings
-        case["argv"] = rng.choice(["full", "full", "full", "no_output", "no_keystore", "only_envelope", "long_opts", "envelope_no_ext"])
+        case["argv"] = rng.choice(["full", "full", "full", "no_output", "no_keystore", "only_envelope", "long_opts", "envelope_no_ext",
+                                    "output_dir", "output_dir_no_ext"])
     elif kind == "hyperv":
         case["name"] = rng.choice(["test.vmcx", "test.VMRS"])
     else:
@@ -253,14 +257,23 @@ def run_case(case: dict) -> RunResult:
 
             work.append(("fixture", w_fix))
         elif kind == "vmtar":
-            world.fs.add(d + "/test.vgz", fixtures.simfile("test.vgz"))
+            if case.get("arch"):
+                from hvsim.writers import vmtar as WT
+
+                raw, _ = WT.build(case["arch"])
+                tf = SimFile()
+                tf.write(0, raw)
+                world.fs.add(d + "/test.vgz", tf)
+            else:
+                world.fs.add(d + "/test.vgz", fixtures.simfile("test.vgz"))
+            gz_ok = not case.get("arch") or case["arch"]["wrap"] == "gz"
 
             def w_tar():
                 from dissect.hypervisor.util import vmtar
 
                 if case["how"] == "fileobj":
                     t = vmtar.open(fileobj=H(d + "/test.vgz"))
-                elif case["how"] == "name":
+                elif case["how"] == "name" or not gz_ok:
                     t = vmtar.open(d + "/test.vgz")
                 else:
                     t = vmtar.open(d + "/test.vgz", "r:gz")
@@ -279,7 +292,12 @@ def run_case(case: dict) -> RunResult:
             if kind == "cli":
                 mode = case.get("argv", "full")
                 envp = d + "/local.tgz.ve"
-                if mode == "envelope_no_ext":
+                if mode == "output_dir":
+                    # the user names a directory, not a file: nothing in it may be created or replaced on their behalf
+                    prior = SimFile()
+                    prior.write(0, b"an earlier export")
+                    world.fs.add(d + "/out/local.tgz", prior)
+                if mode in ("envelope_no_ext", "output_dir_no_ext"):
                     envp = d + "/exhibit_0042"
                     world.fs.add(envp, world.fs.files[d + "/local.tgz.ve"])
                     world.fs.add(d + "/local.tgz", SimFile())  # a sibling a careless default output name would clobber
@@ -288,8 +306,10 @@ def run_case(case: dict) -> RunResult:
                         "no_output": [envp, "-ks", d + "/encryption.info"],
                         "envelope_no_ext": [envp, "-ks", d + "/encryption.info"],
                         "no_keystore": [envp, "-o", out],
+                        "output_dir": [envp, "-ks", d + "/encryption.info", "-o", d + "/out"],
+                        "output_dir_no_ext": [envp, "-ks", d + "/encryption.info", "-o", d],
                         "only_envelope": [envp]}[mode]
-                if "-o" in args or "--output" in args:
+                if ("-o" in args or "--output" in args) and not mode.startswith("output_dir"):
                     world.fs.declared_outputs.add(out)
 
                 def w_cli():
@@ -406,6 +426,11 @@ def run_case(case: dict) -> RunResult:
     res.probes["monitor.kind_" + kind] = 1
     if book.items:
         res.probes["monitor.bytesio_handle"] = 1
+    if kind == "vmtar" and case.get("arch"):
+        a = case["arch"]
+        res.probes["monitor.vmtar_synthetic_" + a["wrap"] + ("_visor" if a["visor"] else "_plain")] = 1
+        if any(m.get("size", 0) > (32 << 20) for m in a["members"]):
+            res.probes["monitor.vmtar_member_over_32MiB"] = 1
     res.faults.update(world.faults_fired)
     for s in sites:
         res.probes["site:" + s] = 1
